@@ -17,7 +17,7 @@ PROP = dict(
          "side-effecting argument expressions; plus arities 31, 32 and 33 (above CallData::MAX_NARGS the call goes through a function "
          "object) with defaults on parameter 5 and on the last ten, 10 shapes each (all positional, defaults omitted, all by name "
          "reversed, positional prefix + reversed names, holes filled by defaults, surplus, missing, name+position, unknown name, "
-         "positional after named) for all 7 callee forms; 6 fixed probes; distinct = distinct (form, parameter list, shape); non-trivial = the call "
+         "positional after named) for all 7 callee forms; 6 fixed probes; 24 default-value pairs (a default that is itself a qualified member call with explicit receiver / method call / free-function call / struct or variant constructor with named and default arguments of its own, on a function parameter, a method parameter, a struct field and a variant field: the program omitting the default at two call sites must print what the program with the default written out prints); distinct = distinct (form, parameter list, shape); non-trivial = the call "
          "uses a name, omits a parameter or is rejected",
     nontrivial=lambda req, imp: imp.startswith("diag") or any(w not in ("_", "-") for w in req.split()[3].split(",")) or "d" in imp.split("|")[0],
     trusted_base=COMMON_TB + [
